@@ -13,7 +13,7 @@ TRUSTED = [
     "that the translator's pointer-shape code of a member type (ptr_shape) is right (pointer_members_modelled is a kernel check over it); "
     "recursive classes (UDQASTNode) are instances of the descriptor type only by unrolling; "
     "that operator== and the public queries depend only on the listed members",
-    "knownUnserialized carries two reproduced defects of the unchanged tree (slave_mode, m_restart_network_pressures): their probes only count until the entries leave the list",
+    "the probes for slave_mode / m_restart_network_pressures are armed exactly when the member is not on knownUnserialized (empty now)",
 ]
 
 
